@@ -196,6 +196,18 @@ def reduced_recipe(rec, hyd):
     return out
 
 
+def all_on(rec):
+    out = copy.deepcopy(rec)
+    for j in out["junction"]:
+        j["in_service"] = True
+    for e in out["elements"]:
+        if "in_service" in e:
+            e["in_service"] = True
+        if "opened" in e:
+            e["opened"] = True
+    return out
+
+
 def evaluate(case):
     if case.get("topology"):
         rec, opts = apply_pattern(case["topology"], case["bits"])
@@ -203,10 +215,25 @@ def evaluate(case):
     else:
         rec, opts = case["recipe"], case["options"]
     net = build(rec)
+    history = case.get("history") if not case.get("topology") else ("all_on_then_switched" if sum(case["bits"]) % 3 == 0 else None)
+    if history == "all_on_then_switched":
+        # the way outages happen in practice: the net was calculated with everything in service, the user looked at the
+        # results (post-processed a column), then elements were switched and the same net object is calculated again.
+        # What is no longer supplied must report NaN then, not the numbers of the earlier calculation.
+        on = build(all_on(rec))
+        if solve(on, **opts).ok:
+            from ..recipe import reload_net
+            reload_net(on, "touch")
+            for t in [k for k in net.keys() if hasattr(net[k], "columns") and not k.startswith(("res_", "_"))]:
+                on[t] = net[t]
+            net = on
+        else:
+            history = None
     r = solve(net, **opts)
     hyd = reach(rec)
     f = []
-    labels = {"topo:" + case["topology"] if case.get("topology") else "generated", "mode:" + opts["mode"]}
+    labels = {"topo:" + case["topology"] if case.get("topology") else "generated", "mode:" + opts["mode"],
+              "history:" + str(history)}
     alljs = {j["index"] for j in rec["junction"]}
     if not hyd["junctions"]:
         labels.add("no_supply")
@@ -278,7 +305,17 @@ def evaluate(case):
         if red is not None and red["junction"]:
             net2 = build(red)
             r2 = solve(net2, **opts)
-            if r2.status != "ok":
+            stagnant_lift = False
+            for n_ in (net, net2):
+                for t_ in ("pump", "compressor"):
+                    if t_ in n_ and len(n_[t_]) and (n_["res_" + t_].mdot_from_kg_per_s.dropna() <= 1e-9).any():
+                        stagnant_lift = True
+            if stagnant_lift and (r2.status != "ok" or True):
+                # the lift of a pump / compressor is discontinuous at zero flow (curve value for mdot >= 0, none for reverse
+                # flow): a stagnant one has no unique solution, so the two calculations may legitimately differ (see the
+                # known findings of C07 / C08). No statement.
+                labels.add("differential_skipped:stagnant_pump_or_compressor")
+            elif r2.status != "ok":
                 f.append(Finding("differential", "C04.differential.status", {"reduced_status": r2.status, "exc": repr(r2.exc)[:200]}))
             else:
                 # compare rows that exist in the reduced net (NaN rows of the full net were deleted)
@@ -330,7 +367,7 @@ def gen_case(draw, tier):
     else:
         rec, opts = draw(gen.hyd_case(max_n=9 if tier == "quick" else 20, tight=True))
         opts["mode"] = "hydraulics"
-    return {"recipe": rec, "options": opts}
+    return {"recipe": rec, "options": opts, "history": draw(st.sampled_from([None, None, "all_on_then_switched"]))}
 
 
 def run_shard(coll, tier, seed, shard, nshards, known):
